@@ -1279,3 +1279,23 @@ Lemma method_list_rejected : forall ms,
   (create_method_matcher false ms = Rejected <-> In "" ms) /\
   (create_method_matcher true ms = Rejected <-> In "" ms \/ guard_F4 false ms = true).
 Proof. intro ms. split; [apply create_method_rejected | apply create_method_rejected_fx4]. Qed.
+
+Lemma route_semantics_nonvacuous_live :
+  exists r cm q keys vals,
+    only_matcher true r = Some cm /\ length keys = length vals /\ Forall valid_enc vals /\
+    Forall (from_path q) vals /\
+    guard_F1 true eng_none (rl_hosts r) q = false /\ guard_F4 true (rl_methods r) = false /\
+    on_params (guard_F6 true) (rl_slash r) q keys vals (cm_params cm) = false /\
+    on_params (guard_F7 D8) (rl_slash r) q keys vals (cm_params cm) = false /\
+    on_params (guard_F8 D8) (rl_slash r) q keys vals (cm_params cm) = false /\
+    route_matches true true D8 eng_none cm q keys vals = MYes.
+Proof.
+  exists {| rl_scheme := "http"; rl_methods := ["ALL"; "!TRACE"]; rl_hosts := [w_exact "b.com"; w_exact "a.com"];
+            rl_routes := [w_route "/file/:name" [{| pp_name := "name"; pp_tm := w_exact "[id]%2Fx" |}]];
+            rl_slash := SNoDecode; rl_bt := false |}.
+  eexists. exists (w_req "PUT" "a.com" "/file/%5Bid%5D%2fx"), ["name"], ["%5Bid%5D%2fx"].
+  split; [vm_compute; reflexivity|]. split; [reflexivity|].
+  split; [constructor; [unfold valid_enc; vm_compute; discriminate | constructor]|].
+  split; [constructor; [intros _; vm_compute; reflexivity | constructor]|].
+  vm_compute. repeat split.
+Qed.
